@@ -145,6 +145,11 @@ for _pid, _m, _c in (("C01", "MC_C01", "MC_C01_aniso.cfg"), ("C05", "MC_PDF", "M
                      ("C13", "MC_PDF", "MC_C13a_aniso.cfg"), ("C13", "MC_COND", "MC_C13b_aniso.cfg"), ("C07", "MC_COND", "MC_C07_aniso.cfg"),
                      ("C08", "MC_COND", "MC_C08_aniso.cfg"), ("C09", "MC_COND", "MC_C09_aniso.cfg"), ("C10", "MC_COND", "MC_C10_aniso.cfg")):
     PROPS[_pid]["quick"].append({"module": _m, "cfg": _c, "nprimes": 14})
+# repeat a call after an operand was mutated in place (update / update_Sigma / normalize): results are functions of the
+# CURRENT operand values (no memo keyed on object identity, no cache surviving a mutation) - spec/MC_MUT.tla
+for _pid, _c in (("C07", "C07"), ("C08", "C08"), ("C09", "C09"), ("C13", "C13"), ("C13", "C13p"), ("C14", "C14"), ("C14", "C14j"),
+                 ("C05", "C05"), ("C06", "C06"), ("C01", "C01"), ("C04", "C01"), ("C04", "C13p"), ("C04", "C07")):
+    PROPS[_pid]["quick"].append({"module": "MC_MUT", "cfg": "MC_MUT_%s_quick.cfg" % _c, "nprimes": 10, "require_acts": ["Update"] if _c != "C01" else ["Normalize"]})
 PROPS["C12"]["quick"].append({"kind": "b2", "traces": 80, "length": 6, "family": "MC", "nprimes": 10})
 PROPS["C02"]["quick"].append({"kind": "b2", "traces": 60, "length": 6, "family": "MC", "nprimes": 10})
 _THOROUGH_SAMPLING = {"MC_C04M_thorough.cfg": 40, "MC_C04C_thorough.cfg": 24, "MC_C12M_thorough.cfg": 60, "MC_C12C_thorough.cfg": 12}
